@@ -167,6 +167,7 @@ where
     V: Clone + std::fmt::Debug + Serialize + DeserializeOwned + Send + 'static,
     F: Fn(&V, &mut CaseStats) -> CaseResult + Send + Sync,
 {
+    let engine_started = Instant::now();
     let nw = workers().max(1).min(cases.max(1) as usize);
     let stop = Arc::new(AtomicBool::new(false));
     let infra_msg: Arc<Mutex<Option<String>>> = Arc::new(Mutex::new(None));
@@ -344,6 +345,12 @@ where
     });
     for a in accs.into_inner().unwrap() {
         acc.merge(a);
+    }
+    {
+        let e = acc.extra.entry("engine_wall_s".into()).or_insert_with(|| json!({}));
+        if let Value::Object(m) = e {
+            m.insert(label.to_string(), json!((engine_started.elapsed().as_secs_f64() * 10.0).round() / 10.0));
+        }
     }
     if let Some(m) = infra_msg.lock().unwrap().take() {
         return Outcome::Infra(m);
